@@ -65,6 +65,11 @@ V1(tw, clock, node) ==
   LET be == BytesBE(tw) IN
   <<be[5], be[6], be[7], be[8], be[3], be[4], (be[1] % 16) + 16, be[2],
     ((clock \div 256) % 64) + 128, clock % 256>> \o node
+\* the node field of a UUID built with a node of another length: its first octets ("up to 6 bytes"), zero filled
+NodeField(node) == [i \in 1 .. 6 |-> IF i <= Len(node) THEN node[i] ELSE 0]
+\* what holds of TimeUUIDWith(t, clock, node) whatever the node's length: the other fields are the ones asked for
+V1Fields(u, tw, clock) == /\ Len(u) = 16 /\ Version(u) = 1 /\ IsRfcVariant(u)
+                          /\ TimestampW(u) = tw /\ ClockSeq(u) = clock % 16384
 IsV1(u) == Len(u) = 16 /\ Version(u) = 1 /\ IsRfcVariant(u)
 IsV4(u) == Len(u) = 16 /\ Version(u) = 4 /\ IsRfcVariant(u)
 
